@@ -69,17 +69,29 @@ func registerClients(st *vstore.Store) map[string]*vclient.Client {
 	pk.Secret = ""
 	pk.Auth = oidc.AuthMethodPrivateKeyJWT
 	add(pk)
-	st.AddClientKey("c20pk", opdrv.ClientKey("c20pk"))
+	st.AddClientKey("c20pk", pkKey)
 	pub := vclient.Public("c20pub", "com.example.c20:/cb")
 	pub.Grants = []oidc.GrantType{oidc.GrantTypeCode, oidc.GrantTypeRefreshToken, oidc.GrantTypeDeviceCode}
 	add(pub)
 	return m
 }
 
+// pkKey is the P-256 key of the private_key_jwt client c20pk (ECDSA stays fast under the race detector).
+var (
+	pkKey = keys.Get("ckey-c20pk", jose.ES256)
+	pkPEM = pkKey.PKCS8PEM()
+)
+
+const pkKid = "ckey-c20pk"
+
 // assertion builds a private_key_jwt / jwt-bearer assertion for client id, valid now, for the given issuer.
 func assertion(clientID, issuer string) string {
 	now := time.Now()
-	return opdrv.Assertion(opdrv.ClientKey(clientID), clientID, clientID, []string{issuer}, now.Add(-5*time.Second), now.Add(10*time.Minute), nil)
+	k := opdrv.ClientKey(clientID)
+	if clientID == "c20pk" {
+		k = pkKey
+	}
+	return opdrv.Assertion(k, clientID, clientID, []string{issuer}, now.Add(-5*time.Second), now.Add(10*time.Minute), nil)
 }
 
 // serve runs one server-side request in-process with panic attribution.
